@@ -133,7 +133,7 @@ PROPS = {
                 claim="from_unix_str_impl, from_windows_str, FromStr::from_str, Display::fmt proved by Verus equal to a parse/display spec on which case-insensitivity, agreement of short/long/number spellings and display round trip are lemmas; Signal::{from(i32),to_nix,from_nix} and ProcessEnd::from(ExitStatus)/into_exitstatus proved by Kani for all 2^32 raw values and all enum values (function contracts on thin wrappers, proof_for_contract)",
                 trusted="CBMC's bit-precise model of the compiled MIR incl. std::process::ExitStatus and nix::sys::signal::Signal::try_from (real code, no stubs)",
                 technique="Kani function contracts (proof_for_contract) on the real conversion functions, full-domain symbolic inputs"),
-    "C16": dict(units=[], engines=[_kani.make_engine("signals"), _kani.make_engine("events"),
+    "C16": dict(units=["fskinds"], engines=[_kani.make_engine("signals"), _kani.make_engine("events"),
                                    replay_engine("events", "fs_kind_json_roundtrip_exhaustive", "C16.fs_kind.json_roundtrip_every_kind",
                                                  "every filesystem event kind: Event -> real serde_json text -> Event is the identity and the text has kind=fs, simple, full=<Debug name>",
                                                  label="EXHAUSTIVE EXECUTION over a finite domain (all 41 kinds; the enumeration's matches have no wildcard, so a new variant is a build error) on the real code incl. the serde layer: complete for this clause, not a proof: "),
@@ -149,8 +149,8 @@ PROPS = {
                              "paths: a fixed empty PathBuf stands for every path (its bytes are moved, never inspected, by the conversions)",
                              "filesystem event kind names (format!(\"{:?}\") against the 41-row string match) cannot be brought under Kani (format!) or Verus (string bytes): decided by exhaustive execution of all 41 kinds on the real code, labelled as such",
                              "Event metadata HashMap<->BTreeMap conversion is std's collect(): not under contract"],
-                claim="Tag<->SerdeTag conversions proved by Kani for every non-fs tag kind over full value ranges; an arbitrary tag object (all optional fields symbolic) never panics and yields its own kind or the explicit Unknown tag",
-                trusted="CBMC's bit-precise model of the compiled MIR (real code incl. the unsafe new_unchecked calls, no stubs)",
+                claim="Tag<->SerdeTag conversions proved by Kani for every non-fs tag kind over full value ranges; an arbitrary tag object (all optional fields symbolic) never panics and yields its own kind or the explicit Unknown tag; the filesystem-kind name table (the real 41-row `match full.as_str()`) proved by Verus to parse the text derive(Debug) prints for every kind back to that kind",
+                trusted="CBMC's bit-precise model of the compiled MIR (real code incl. the unsafe new_unchecked calls, no stubs); unit fskinds: the kind enums are extracted from notify-types' source in the cargo registry, debug_name is generated from them by the documented meaning of derive(Debug) (validated by the exhaustive execution through the real format!/serde_json), string literals are abstract values that differ when their texts differ",
                 technique="Kani loop-free proof harnesses over full-domain symbolic inputs on the real conversion functions (plain harnesses: contract instrumentation is 20x slower on these heap-carrying types)"),
     "C01": dict(units=["worker", "sources", "actionloop", "fswatch", "maintask"], level="proof", assumptions=WORKER_ASSUME,
                 claim="throttle_collect proved by Verus: the returned batch is exactly the accepted sub-sequence (urgent, empty or filter-accepted) of the messages it received, never empty; loop invariant over all event streams, verdict sequences and timings",
